@@ -25,26 +25,27 @@ type Clause struct {
 }
 
 type FuncSpec struct {
-	Key      string
-	Kind     string // func functype extern iface
-	Params   []string
-	Clauses  []*Clause
-	Tags     []string
-	Inline   bool
-	Trusted  bool
-	Pure     bool
-	HasMods  bool
-	NoFrame  bool
-	File     string
-	Line     int
-	Used     bool
-	Opaque   bool
+	Key       string
+	Kind      string // func functype extern iface
+	Params    []string
+	Clauses   []*Clause
+	Tags      []string
+	Inline    bool
+	Trusted   bool
+	Pure      bool
+	HasMods   bool
+	NoFrame   bool
+	File      string
+	Line      int
+	Used      bool
+	Opaque    bool
 	Unclaimed map[string]string // obligation-name suffix -> reason
 	Lets      []*LetSpec
 }
 
 // LetSpec: a contract-local specification function determined by the pre-state:
-//   let anc(k int) *Directive : axiom1 ; axiom2
+//
+//	let anc(k int) *Directive : axiom1 ; axiom2
 type LetSpec struct {
 	Name   string
 	Params []QVar
@@ -98,19 +99,32 @@ type GhostField struct {
 }
 
 type SpecDB struct {
-	Funcs   map[string]*FuncSpec
-	Preds   map[string]*PredSpec
-	Tables  map[string]*TableSpec
-	SpecFns map[string]*SpecFn
-	Axioms  []*AxiomSpec
-	Lemmas  []*LemmaSpec
-	Ghosts  map[string][]GhostField // by type key "pkg.Type"
-	Files   []string
-	Consts  map[string]string
-	GhostVars map[string]string // name -> type
+	Funcs      map[string]*FuncSpec
+	Preds      map[string]*PredSpec
+	Tables     map[string]*TableSpec
+	SpecFns    map[string]*SpecFn
+	Axioms     []*AxiomSpec
+	Lemmas     []*LemmaSpec
+	Ghosts     map[string][]GhostField // by type key "pkg.Type"
+	Files      []string
+	Consts     map[string]string
+	GhostVars  map[string]string // name -> type
 	GlobalInvs []*AxiomSpec
 	Guarded    map[string]string // "pkg.Type.field" -> mutex field
 	Access     []*AccessSpec
+	Equivs     map[string]*EquivSpec // functype key -> state equivalence for two-run (2-safety) lemmas
+}
+
+// EquivSpec: equiv stepFunc(s, c) [C05] : pairs 10/13, 32/9 : s.step, s.stepStack, ...
+type EquivSpec struct {
+	Type                  string
+	Params                []string
+	Tags                  []string
+	Pairs                 [][2]string
+	Exprs                 []Expr
+	Srcs                  []string
+	ByteField, IndexField string            // the parameter byte is <recv>.<ByteField>[<recv>.<IndexField>] in the pre-state
+	Skip                  map[string]string // function key -> reason the lemma is not claimed for it
 }
 
 // AccessSpec: the complete list of functions allowed to read / write a field (frame scan), or to write package-level state.
@@ -125,13 +139,13 @@ type AccessSpec struct {
 
 func NewSpecDB() *SpecDB {
 	return &SpecDB{Funcs: map[string]*FuncSpec{}, Preds: map[string]*PredSpec{}, Tables: map[string]*TableSpec{},
-		SpecFns: map[string]*SpecFn{}, Ghosts: map[string][]GhostField{}, Consts: map[string]string{}, GhostVars: map[string]string{}, Guarded: map[string]string{}}
+		SpecFns: map[string]*SpecFn{}, Ghosts: map[string][]GhostField{}, Consts: map[string]string{}, GhostVars: map[string]string{}, Guarded: map[string]string{}, Equivs: map[string]*EquivSpec{}}
 }
 
 var clauseKW = map[string]bool{"requires": true, "ensures": true, "ghostensures": true, "modifies": true, "decreases": true, "loop": true,
 	"inline": true, "trusted": true, "pure": true, "tag": true, "noframe": true, "opaque": true, "unclaimed": true, "let": true, "oncallback": true}
 var topKW = map[string]bool{"func": true, "functype": true, "extern": true, "pred": true, "table": true, "specfn": true,
-	"axiom": true, "lemma": true, "ghostfield": true, "iface": true, "const": true, "ghostvar": true, "globalinv": true, "guardedby": true, "readers": true, "writers": true, "globalwriters": true, "mapranges": true}
+	"axiom": true, "lemma": true, "ghostfield": true, "iface": true, "const": true, "ghostvar": true, "globalinv": true, "guardedby": true, "readers": true, "writers": true, "globalwriters": true, "mapranges": true, "equiv": true}
 
 type rawLine struct {
 	text string
@@ -456,6 +470,64 @@ func (db *SpecDB) LoadFile(path string, pkg string) error {
 				}
 			}
 			db.Access = append(db.Access, as)
+			cur = nil
+		case "equiv":
+			// equiv stepFunc(s, c) [C05] : pairs 10/13, 32/9 : s.step, s.finds
+			if strings.HasPrefix(rest, "skip ") {
+				// equiv skip stepFunc stateX, stateY : reason
+				f := strings.SplitN(strings.TrimPrefix(rest, "skip "), ":", 2)
+				hd := strings.Fields(strings.ReplaceAll(f[0], ",", " "))
+				if len(f) != 2 || len(hd) < 2 {
+					return fail("equiv skip syntax")
+				}
+				es := db.Equivs[qualifyKey(hd[0], pkg)]
+				if es == nil {
+					return fail("equiv skip before equiv")
+				}
+				for _, n := range hd[1:] {
+					es.Skip[qualifyKey(n, pkg)] = strings.TrimSpace(f[1])
+				}
+				cur = nil
+				break
+			}
+			parts := strings.SplitN(rest, ":", 4)
+			if len(parts) != 4 {
+				return fail("equiv syntax")
+			}
+			bf := strings.Fields(parts[2])
+			if len(bf) != 3 || bf[0] != "byteat" {
+				return fail("equiv: expected 'byteat <field> <indexfield>'")
+			}
+			parts = []string{parts[0], parts[1], parts[3]}
+			head := strings.TrimSpace(parts[0])
+			tags := []string{}
+			if i := strings.Index(head, "["); i >= 0 {
+				tags, _ = splitTags(head[i:])
+				head = strings.TrimSpace(head[:i])
+			}
+			name, params, err := parseHead(head)
+			if err != nil {
+				return fail("%v", err)
+			}
+			es := &EquivSpec{Type: qualifyKey(name, pkg), Tags: tags, ByteField: bf[1], IndexField: bf[2], Skip: map[string]string{}}
+			for _, p := range params {
+				es.Params = append(es.Params, p.Name)
+			}
+			for _, pr := range strings.Split(strings.TrimPrefix(strings.TrimSpace(parts[1]), "pairs"), ",") {
+				ab := strings.Split(strings.TrimSpace(pr), "/")
+				if len(ab) == 2 {
+					es.Pairs = append(es.Pairs, [2]string{strings.TrimSpace(ab[0]), strings.TrimSpace(ab[1])})
+				}
+			}
+			for _, part := range splitTopLevel(parts[2], ',') {
+				e, err := ParseExpr(part)
+				if err != nil {
+					return fail("%v", err)
+				}
+				es.Exprs = append(es.Exprs, e)
+				es.Srcs = append(es.Srcs, part)
+			}
+			db.Equivs[es.Type] = es
 			cur = nil
 		case "guardedby":
 			// guardedby Tags.data mx
